@@ -6,6 +6,7 @@ import (
 	"fmt"
 	"os"
 	"runtime/debug"
+	"strings"
 
 	"verif/mc"
 	"verif/props"
@@ -64,9 +65,34 @@ func main() {
 		os.Exit(0)
 	}
 	if p.Procs && mc.Workers() > 1 {
-		if err := c.RunSharded(mc.Workers(), []string{id, mode}); err != nil {
+		deaths, err := c.RunSharded(mc.Workers(), []string{id, mode})
+		if err != nil {
 			fmt.Fprintln(os.Stderr, "harness error:", err)
 			os.Exit(2)
+		}
+		for _, d := range deaths {
+			// a worker that was killed by the Go runtime while running an announced case: attribute it
+			class := "worker-process-died"
+			switch {
+			case strings.Contains(d.Output, "out of memory") || strings.Contains(d.Output, "cannot allocate memory"):
+				class = "allocation-exhausts-address-space"
+			case strings.Contains(d.Output, "stack overflow") || strings.Contains(d.Output, "goroutine stack exceeds"):
+				class = "unbounded-recursion"
+			}
+			if p.Lookup == nil || d.Seq == 0 {
+				fmt.Fprintf(os.Stderr, "harness error: shard %d failed and cannot be attributed:\n%s\n", d.Shard, d.Output)
+				os.Exit(2)
+			}
+			fam, cas := p.Lookup(mc.NewCtx(id, mode), d.Seq, d.Index)
+			out := d.Output
+			if i := strings.Index(out, "fatal error:"); i >= 0 {
+				out = out[i:]
+			}
+			if len(out) > 300 {
+				out = out[:300]
+			}
+			c.NotExhaustive(fmt.Sprintf("shard %d was killed by the runtime at case %d; the rest of its share was not run", d.Shard, d.Index))
+			c.Violate(class+"/"+fam, "call", cas, "the worker process was killed by the Go runtime while running this case: "+out)
 		}
 		os.Exit(c.Finish())
 	}
